@@ -41,7 +41,10 @@ type xl struct {
 	flatKeys                     []string
 	recvAcc                      bool // whitelist Acc "$recv": the receiver is the threaded value and the only result
 	inStmtCall                   bool
-	goParamNames, leanParamNames []string // parameters by position (`$k` in fuel expressions)
+	mutated                      map[types.Object]bool // variables that are the target of an in-place mutation (functional update)
+	aliasPairs                   [][2]types.Object     // `a := b` / `a = b` between variables of a reference kind
+	accAlias                     map[types.Object]bool // `m := *ret`: a second name of the accumulator map
+	goParamNames, leanParamNames []string              // parameters by position (`$k` in fuel expressions)
 }
 
 type xlParam struct{ name, typ string }
